@@ -1,28 +1,48 @@
 #!/usr/bin/env python3
-"""Apply each seeded mutation to /repo, run the check of its property (and optionally others), undo it.
-usage: run_seeds.py [--also C01,C03] C01-1 C02-2 ...   (no args: all seeds)"""
-import json, os, subprocess, sys, time
+"""Run the check of a property against its seeded mutations, on a scratch copy of /repo (ASYNQ_REPO), several in parallel.
+usage: run_seeds.py [--also C01,C03] [C01-1 C02-2 ...]   (no ids: every seed whose property has a check module)
+Results are merged into seeded/RESULTS.json."""
+import json, os, shutil, subprocess, sys, tempfile, time
+from concurrent.futures import ThreadPoolExecutor
 args = sys.argv[1:]
 also = []
 if args and args[0] == '--also':
     also = args[1].split(','); args = args[2:]
-seeds = args or sorted(os.listdir('/verif/seeded'))
-res = {}
-for sid in seeds:
+seeds = args or sorted(d for d in os.listdir('/verif/seeded') if os.path.isdir('/verif/seeded/' + d))
+seeds = [s for s in seeds if os.path.exists('/verif/harness/checks/%s.py' % s.split('-')[0].lower())]
+
+def run(sid):
     pid = sid.split('-')[0]
-    patch = f'/verif/seeded/{sid}/patch.diff'
-    subprocess.run(['git', '-C', '/repo', 'checkout', '--', '.'], check=True)
-    p = subprocess.run(['git', '-C', '/repo', 'apply', patch], capture_output=True, text=True)
-    if p.returncode != 0:
-        print(sid, 'PATCH-FAILED', p.stderr.strip()[:200]); continue
+    tmp = tempfile.mkdtemp(prefix='seedrepo-')
+    out = []
     try:
+        repo = os.path.join(tmp, 'repo')
+        subprocess.run(['git', 'clone', '-q', '/repo', repo], check=True)
+        p = subprocess.run(['git', '-C', repo, 'apply', f'/verif/seeded/{sid}/patch.diff'], capture_output=True, text=True)
+        if p.returncode != 0:
+            return [(sid, pid, 'PATCH-FAILED', p.stderr.strip()[:200])]
+        env = dict(os.environ, ASYNQ_REPO=repo)
         for q in [pid] + also:
             t = time.time()
-            r = subprocess.run(['bin/check', q], cwd='/verif', capture_output=True, text=True, timeout=1200)
+            r = subprocess.run(['bin/check', q], cwd='/verif', capture_output=True, text=True, timeout=1800, env=env)
             viol = [l for l in r.stdout.splitlines() if l.startswith('VIOLATION')]
             tail = r.stdout.strip().splitlines()[-1] if r.stdout.strip() else r.stderr[-200:]
-            print(sid, q, 'rc=%d' % r.returncode, 'DETECTED' if r.returncode == 1 else 'MISSED' if r.returncode == 0 else 'BROKEN', '%.0fs' % (time.time() - t),
-                  ('nofail' if viol and all('no-failing-input-found' in v for v in viol) else ''), '|', tail[:160], flush=True)
-            res.setdefault(sid, {})[q] = r.returncode
+            verdict = 'DETECTED' if r.returncode == 1 else 'MISSED' if r.returncode == 0 else 'BROKEN'
+            if verdict == 'DETECTED' and viol and all('no-failing-input-found' in v for v in viol):
+                verdict = 'DETECTED(nofail)'
+            out.append((sid, q, verdict, '%.0fs | %s' % (time.time() - t, tail[:150])))
     finally:
-        subprocess.run(['git', '-C', '/repo', 'checkout', '--', '.'], check=True)
+        shutil.rmtree(tmp, ignore_errors=True)
+    return out
+
+with ThreadPoolExecutor(3) as ex:
+    results = [r for rs in ex.map(run, seeds) for r in rs]
+resf = '/verif/seeded/RESULTS.json'
+res = json.load(open(resf)) if os.path.exists(resf) else {}
+for sid, q, verdict, info in results:
+    print(sid, q, verdict, info, flush=True)
+    if q == sid.split('-')[0]:
+        res[sid] = verdict.lower()
+    else:
+        res[sid + '@' + q] = verdict.lower()
+json.dump(res, open(resf, 'w'), indent=1, sort_keys=True)
